@@ -9,5 +9,5 @@ for n in $NAMES; do
   d="$HERE/seeded/$n"; [ -f "$d/patch.diff" ] || continue
   ids=$(python3 -c "import json;print(' '.join(json.load(open('$d/meta.json'))['checks_to_run']))")
   echo "== $n ($ids)"
-  "$HERE/tools/mutant_run.sh" "$d/patch.diff" "$TIER" $ids | tee "$d/result-$TIER.txt"
+  "$HERE/tools/${MUTANT_RUNNER:-mutant_run.sh}" "$d/patch.diff" "$TIER" $ids | tee "$d/result-$TIER.txt"
 done
